@@ -52,7 +52,16 @@ func Balloon.AddBulk
 func Balloon.RefreshVersion
   props C05
   requires !isnil(b.store)
-  modifies b.version
+  modifies b.version, versionSeenLoads
+  // (bookkeeping for C09: the version is read from the store as it is now)
+  assumes versionSeenLoads == snapshotLoads
+
+// ---- C09: after a state transfer the in-memory structures are re-derived from the store ----
+func Balloon.RebuildCache
+  props C09
+  requires b.hyperTree != nil
+  modifies everything, rebuildSeenLoads
+  ensures C09/hyper-cache-rebuilt: rebuildSeenLoads == snapshotLoads
 
 // ---- C11: queries on arbitrary request data never crash the node ---------------------
 // (the explicit "tampered" panic needs a store whose hyper tree names a version
